@@ -372,9 +372,9 @@ theorem compose_step (cfg : Cfg) (st : St) (rid : Rid) (b : Batch) (h : Hyp nm b
           simp [failedTps, he']
         · simp [failedTps]
       · intro x hx he hc
-        simp only [Batch.popAcked, List.mem_filter, Bool.not_eq_true', Bool.eq_false_iff] at hc
-        apply hc.2
-        rw [List.any_eq_true]
-        exact ⟨x, List.mem_filter.mpr ⟨by rw [hresps]; exact hx, by simpa using he⟩, by simp⟩
+        simp only [Batch.keep, List.mem_filter, decide_eq_true_eq] at hc
+        have hv' : validResult b r = true := hv
+        simp only [validResult, Bool.and_eq_true, decide_eq_true_eq] at hv'
+        exact acked_not_failed b.live r hv'.2 x (by rw [hresps]; exact hx) he hc.2
 
 end Afkak.Producer.Compose
